@@ -22,6 +22,7 @@ FAMILY_BOUNDS = {
     'iter': '~65 patterns x ~35 texts x backtrack limits {default,1,3,30}: find_iter / captures_iter / split / splitn(n = 0..pieces+1) vs the reference model driven by the real single-shot search',
     'search': '~80 patterns x ~40 texts x every char-boundary start offset: entry-point coherence, offset validity, group metadata',
     'analyze': '~2000 patterns from a 3-level grammar (incl. huge repeat counts) : Info facts vs match-length sets enumerated up to 14 characters',
+    'parse': 'all sequences of <= 3 tokens over a 63-token vocabulary of syntax fragments (254 079 patterns): no panic in Regex::new, parse-error position <= length, back-reference numbers < length',
     'quote': 'all strings of length <= 3 over a 28-symbol alphabet (every meta-character, 2-4 byte characters) x 5 host patterns x 7 texts',
 }
 
